@@ -94,6 +94,10 @@ def fold(t: Any) -> Any:
             if r is not UNDECIDED:
                 return T.const(r if op == "==" else not r)
             return t
+        if op in ("is", "isnot") and a[0] == "const" and b[0] == "const" and (a[1] is None or b[1] is None or isinstance(a[1], bool) and isinstance(b[1], bool)):
+            return T.const((a[1] is b[1]) == (op == "is"))
+        if op in ("is", "isnot") and ((a == T.NONE and display(b) is not None) or (b == T.NONE and display(a) is not None)):
+            return T.const(op == "isnot")
         if op in ("<", "<=") and a[0] == "const" and b[0] == "const":
             try:
                 return T.const(a[1] < b[1] if op == "<" else a[1] <= b[1])
